@@ -5,6 +5,7 @@ import Driver.OpsIeee
 import Driver.OpsCodec
 import Driver.OpsTables
 import Driver.OpsFrame
+import Driver.OpsLocal
 import Driver.OpsFind
 /-
   bvp_lean — line-protocol driver: one operation per input line, one canonical
@@ -22,6 +23,7 @@ structure St where
   codec : CodecSt := {}
   tbl : TblSt := {}
   frame : FrameSt := {}
+  lt : LtSt := {}
   find : FindSt := {}
 
 def step (st : St) (line : String) : St × String :=
@@ -47,6 +49,9 @@ def step (st : St) (line : String) : St × String :=
   | none =>
   match stepFind st.tm st.codec st.find toks with
   | some (s, o) => ({ st with find := s }, o)
+  | none =>
+  match stepLocal st.tm st.lt toks with
+  | some (t, l, o) => ({ st with tm := t, lt := l }, o)
   | none => (st, "bad-op")
 
 partial def loop (h : IO.FS.Stream) (out : IO.FS.Stream) (st : St) : IO Unit := do
